@@ -500,9 +500,9 @@ Proof.
   destruct nosym.
   { apply fails_res_err, (run_ret_partial t1 root cur expn refs (Some nx) remaining (OsError ELOOP) Hrc). }
   rewrite run_bind.
-  assert (Hmf : run t1 (if EMU_PS_ONLY_TRAILING && negb (is_nil rest) then Ret (Ok tt) else may_follow_link fz ps cur nx)
+  assert (Hmf : run t1 (if EMU_PS_ONLY_TRAILING && negb (ps_trailing rest) then Ret (Ok tt) else may_follow_link fz ps cur nx)
                 = Done t1 (Ok tt)).
-  { destruct (EMU_PS_ONLY_TRAILING && negb (is_nil rest)); [reflexivity|apply (run_may_follow ps t1 cur nx o d Hc1 Hn1)]. }
+  { destruct (EMU_PS_ONLY_TRAILING && negb (ps_trailing rest)); [reflexivity|apply (run_may_follow ps t1 cur nx o d Hc1 Hn1)]. }
   rewrite Hmf. clear Hmf.
   destruct follow as [g|], fe as [ge|]; try contradiction.
   2:{ apply fails_res_budget, (run_ret_partial t1 root cur expn refs (Some nx) remaining (OsError ELOOP) Hrc). }
